@@ -6,7 +6,7 @@ how much, which lengths are added, and that a bit string of zero bits only is st
 import z3
 from z3 import Int, Bool, And, Or, Not, If, IntVal
 
-from pyvc.core import (Contract, PInt, PBool, PConst, PBytes, PDerived, POneOf, Obj, FnV, Tup, ExcV, _Raise, ClassV, toint, concrete,
+from pyvc.core import (Contract, Loop, PInt, PBool, PConst, PBytes, PDerived, POneOf, Obj, FnV, Tup, ExcV, _Raise, ClassV, toint, concrete,
                        Unsupported, SeqV, Length, I)
 
 U = 'pyasn1/type/univ.py'
@@ -71,3 +71,47 @@ FROM_OCTETS = Contract(
                                         'X.val256(old(value)) // X.pow2f(padding)))')],
     note='`|` of bit patterns is uninterpreted here; integer.from_bytes is the callee contract')
 CONTRACTS = [FROM_OCTETS]
+
+
+# ---- BitString * n: n copies of the bits, leading zero bits included (C14 funnel, fix 3affd96) -----------------------------------
+V0, L0_, N0 = Int('self.value'), Int('self.bits'), Int('times')
+_rn = Int('n!rep')
+REP = z3.RecFunction('bits_repeated', I, I, I, I)            # n copies of the L-bit pattern v, as a number
+from spec.smt import pow2 as _POW2
+z3.RecAddDefinition(REP, [V0, L0_, _rn], If(_rn <= 0, IntVal(0), REP(V0, L0_, _rn - 1) * _POW2(L0_) + V0))
+
+
+def _mul_self(ex, env):
+    me = sized(V0, L0_)
+
+    def ror(ex2, self, other):
+        # (x << L) | v with 0 <= v < 2**L: disjoint bits, so | is + (python ints; the width is the one just shifted by)
+        w = getattr(ex2, 'lshift_width', {}).get(toint(other).get_id())
+        if w is not None and not ex2.feasible(Not(toint(w) == L0_)):
+            return toint(other) + V0
+        return BIT_OR(toint(other), V0)
+    me.methods['__ror__'] = ror
+
+    def clone(ex2, self, value=None, **kw):
+        return Obj('BitString', {'value': value.fields['value'], 'bitLength': value.fields['bitLength']}, name='product')
+    return Obj('BitString', {'_value': me}, {'clone': clone}, name='self')
+
+
+MUL = Contract(
+    id='type.univ::BitString.__mul__', file=U, qual='BitString.__mul__', properties=['C14', 'C19'],
+    params=dict(self=PDerived(_mul_self), value=PConst(N0)),
+    globals={'SizedInteger': FnV(_sized_ctor, 'SizedInteger'), 'V': V0, 'L': L0_, 'N': N0,
+             'rep': FnV(lambda ex, n: REP(V0, L0_, toint(n)), 'rep'),
+             'unfold': FnV(lambda ex, n: z3.Implies(toint(n) >= 0, REP(V0, L0_, toint(n) + 1) ==
+                                                    REP(V0, L0_, toint(n)) * ex.X.pow2(L0_) + V0), 'unfold'),
+             'rep0': FnV(lambda ex: REP(V0, L0_, IntVal(0)) == 0, 'rep0')},
+    # a SizedInteger of L bits: 0 <= value < 2**L
+    requires=['L >= 0', 'V >= 0', 'V < X.pow2f(L)'],
+    loops={0: Loop(invariant=['times >= 0', 'times <= N or times == 0', 'bitString == rep(times)', 'length == L'],
+                   variant='N - times', hints=['unfold(iter_old(times))'])},
+    hints=['rep0()'],
+    ensures=[('n-copies-of-the-bits', 'result.value == rep(N if N > 0 else 0)'),
+             ('n-times-the-length', 'result.bitLength == L * (N if N > 0 else 0)')],
+    note='`(x << L) | v` is x * 2**L + v for 0 <= v < 2**L (python ints, A-BUILTIN); rep(n) is the number whose binary form is '
+         'n copies of the L-bit pattern')
+CONTRACTS = CONTRACTS + [MUL]
